@@ -13,7 +13,7 @@ namespace NakenVerif.Expr
 /-- evaluate the model on a concrete input by unfolding (the recursive definitions are
     compiled by well-founded recursion, so `decide` cannot run them) -/
 macro "eval_model" : tactic =>
-  `(tactic| simp [E.render, E.renderOperand, E.level, E.eval, specLevel, specOp, eval, eval32, run,
+  `(tactic| simp [E.render, E.renderOperand, E.level, E.eval, specLevel, specOp, eval, eval32, fits32, run,
       loop, unary, finish, reduceAll, reduceFor, pushVal, pushOp, execTop, applyOp, prec,
       NakenVerif.Generated.precOf, valCap, opCap, NakenVerif.Generated.varStackLen,
       NakenVerif.Generated.operStackLen, Terminator])
